@@ -8,6 +8,8 @@ and d/dt (product rule, via forward-mode dual numbers in the model) must all agr
 """
 from __future__ import annotations
 
+from vp import guard as _guard
+
 import functools
 import signal
 import traceback
@@ -311,8 +313,8 @@ def _exc_key(exc: BaseException) -> str:
 
 def judge(case: dict[str, Any], hang_s: int = 30) -> list[tuple[str, str]]:
     """Run one case; returns [(key, what)] violations, or [("__inconclusive__", why)]."""
-    signal.signal(signal.SIGALRM, _alarm)
-    signal.alarm(hang_s)
+    _guard.install(_alarm)
+    _guard.arm(hang_s)
     try:
         return _judge(case)
     except _Hang:
